@@ -80,6 +80,34 @@ def gen_cases(rng, tier):
                         if v[0] != "single":
                             break
                 near_dup(ver, v, mutate_one(rng, v), v[0])
+    # equal twins: the same value marshalled twice as separate objects with independent flags (they may be merged, the tree must stay)
+    def twin(v):
+        k = v[0]
+        if k == "seq":
+            return ("seq", v[1], tuple(twin(x) for x in v[2]))
+        if k == "dict":
+            return ("dict", tuple(twin(x) for x in v[1]))
+        if k == "slice":
+            return ("slice",) + tuple(twin(x) for x in v[1:])
+        if k == "code":
+            return ("code", tuple(v[1]), tuple(twin(x) for x in v[2]))
+        return tuple(v)
+
+    for ver in VERS:
+        for _ in range(3 if tier == "quick" else 40):
+            for _attempt in range(20):
+                v = pm.gen_value(rng, ver, rng.choice([1, 2, 3]))
+                if v[0] != "single":
+                    break
+            both = ("seq", b"(", (v, twin(v), ("seq", b"(", (twin(v),))))
+            payload = pm.dumps(both, ver, rng, rng.choice([0.0, 0.3, 0.5, 1.0]))
+            if len(payload) <= 30000:
+                add(pm.header(ver) + payload, ["twins", "%d.%d" % ver, v[0]], ver, both)
+    for _ in range(6 if tier == "quick" else 60):
+        leaves = [("single", b"N"), ("int", struct.pack("<i", 1)), ("int", struct.pack("<i", 2))]
+        v = ("slice", rng.choice(leaves), rng.choice(leaves), rng.choice(leaves))
+        both = ("seq", b"(", (v, twin(v), twin(v)))
+        add(pm.header((3, 14)) + pm.dumps(both, (3, 14), rng, rng.choice([0.0, 0.3, 0.5, 0.7, 1.0])), ["twins", "3.14", "slice"], (3, 14), both)
     # slices (3.14): each of start/stop/step differing alone
     leaves = [("single", b"N"), ("int", struct.pack("<i", 1)), ("int", struct.pack("<i", -1)), ("int", struct.pack("<i", 2)), ("single", b"T")]
     for pos in (1, 2, 3):
